@@ -100,8 +100,7 @@ class SymShape:
             return Sym('shape_slice', self.s, fz(i))
         return Sym('dim', self.s, fz(i))
 
-    def __len__(self):
-        raise Top(f"rank of opaque array {self.s}")
+    # (no __len__: list(*shape) would call it as a length hint; len(shape) is answered by the `len` model)
 
     def __eq__(self, o):
         raise Top(f"shape comparison of opaque array {self.s}")
@@ -110,7 +109,13 @@ class SymShape:
         return hash(self.s)
 
     def __iter__(self):
-        raise Top(f"iteration over the shape of opaque array {self.s}")
+        # unpacking `*shape` into a longer shape tuple: the unknown extents travel as one marker, exactly like (n,) + shape
+        yield Sym('shape_rest', self.s)
+
+    def __add__(self, o):
+        if isinstance(o, tuple):
+            return (Sym('shape_rest', self.s),) + o
+        return NotImplemented
 
     def __radd__(self, o):
         if isinstance(o, tuple):
@@ -130,6 +135,9 @@ class AtProxy:
 
     def add(self, v, **k):
         return term('at_add', self.s, self.idx, v)
+
+    def get(self, **k):
+        return self.s[self.idx]            # x.at[i].get() == x[i]
 
 
 _SYM_METHODS = ('reshape', 'flatten', 'astype', 'squeeze', 'mean', 'sum', 'min', 'max', 'ravel', 'transpose', 'item',
@@ -170,7 +178,9 @@ Sym.__getattr__ = _sym_getattr
 
 
 def _norm_index(i):
-    """one spelling for equivalent index expressions: [0:k] == [:k], [a:b:1] == [a:b], (i,) == i"""
+    """one spelling for equivalent index expressions: [0:k] == [:k], [a:b:1] == [a:b], (i,) == i, (i, ...) == i"""
+    if isinstance(i, tuple) and len(i) > 1 and i[-1] is Ellipsis:
+        return _norm_index(i[:-1])
     if isinstance(i, tuple) and len(i) == 1:
         return _norm_index(i[0])
     if isinstance(i, slice):
@@ -191,6 +201,9 @@ class _ATAt:
 
     def set(self, v, **k):
         return term('at_set', self.a, self.idx, v)
+
+    def get(self, **k):
+        return self.a[self.idx]
 
     def add(self, v, **k):
         if isinstance(self.a, AT) and all(p.is_zero() for p in self.a.entries()):
@@ -846,8 +859,26 @@ class ModelToken(OpaqueNode):
                 return tuple(t._attrs['out_shape'])
         return (self.n_out(),)
 
+    def call_params(self):
+        for t in self.trees:
+            if isinstance(t, OpaqueObj) and 'call_params' in t._attrs:
+                return tuple(t._attrs['call_params'])
+        return None
+
     def __call__(self, *args, **kw):
         shape = self.out_shape()
+        names = self.call_params()
+        if names is not None and kw:
+            # the inner module's own signature is known: keyword arguments are bound to their positions
+            bound = list(args)
+            for n in names[len(args):]:
+                if n in kw:
+                    bound.append(kw.pop(n))
+                elif kw:
+                    raise Finding(f"call of the inner network without its argument `{n}`")
+            if kw:
+                raise Finding(f"call of the inner network with unknown keyword(s) {sorted(kw)}")
+            args = tuple(bound)
         a = tuple(fz(t) for t in self.trees) + tuple(fz(x) for x in args) + tuple(sorted(((k, fz(v)) for k, v in kw.items()), key=repr))
         dat = np.empty(shape, dtype=object)
         for idx in np.ndindex(shape):
@@ -962,9 +993,22 @@ def _jnp_all(x, **k):
     return term('all', x)
 
 
+class BoolVector(list):
+    """array of boolean scalars (predicates / Python booleans): a list with the reductions of an array"""
+
+    def all(self, *a, **k):
+        return _jnp_all(list(self))
+
+    def any(self, *a, **k):
+        return _jnp_any(list(self))
+
+    def sum(self, *a, **k):
+        raise Top("sum of a vector of predicates")
+
+
 def _jnp_array(x, dtype=None):
     if isinstance(x, (list, tuple)) and any(isinstance(v, Pred) for v in x):
-        return list(x)
+        return BoolVector(x)
     if isinstance(x, (Pred, bool, np.bool_)):
         return x
     if _is_opaque(x):
@@ -972,7 +1016,7 @@ def _jnp_array(x, dtype=None):
             return x
         return term('array', x)
     if isinstance(x, (list, tuple)) and any(isinstance(v, (bool, np.bool_)) for v in x):
-        return list(x)
+        return BoolVector(x)
     return alg.jnp_array(x)
 
 
@@ -1228,14 +1272,21 @@ def _top_k(x, k):
 def _value_and_grad(f, argnums=0, has_aux=False, **kw):
     """value_and_grad(f)(*args) = (f(*args), grad): f is really called (abstractly) so that the structure of its value
     (and auxiliary output) is available; the gradient is the opaque term grad(f, argnums, args)"""
-    def g(*args):
-        fname = f._sym() if hasattr(f, '_sym') else fz(f)
-        grad = Sym('grad', fname, fz(argnums), tuple(fz(a) for a in args))
-        out = f(*args)
-        if has_aux:
-            if not (isinstance(out, tuple) and len(out) == 2):
-                raise Finding("value_and_grad(has_aux=True) of a function that does not return a (value, aux) pair")
-            return out, grad
+    def g(*args, **kwargs):
+        out = f(*args, **kwargs)
+        if has_aux and not (isinstance(out, tuple) and len(out) == 2):
+            raise Finding("value_and_grad(has_aux=True) of a function that does not return a (value, aux) pair")
+        value = out[0] if has_aux else out
+        k = fz(argnums)
+        if isinstance(k, (tuple, list)):
+            wrt = tuple(fz(args[i]) for i in k)
+        else:
+            if not isinstance(k, int) or k >= len(args):
+                raise Finding(f"value_and_grad argnums={argnums!r} but the function is applied to {len(args)} positional arguments")
+            wrt = fz(args[k])
+        # the gradient of the VALUE EXPRESSION with respect to the argument object: the same term however the differentiated
+        # function is packaged (the loss itself, a lambda closing over the batch, a partial, ...)
+        grad = Sym('grad', fz(value), wrt)
         return out, grad
     return g
 
@@ -1288,6 +1339,8 @@ def _hasattr(obj, name):
 
 
 def _len(x):
+    if isinstance(x, SymShape):
+        return Sym('.ndim', x.s)
     if isinstance(x, Sym):
         return x.shape[0]                      # len(a) == a.shape[0] for arrays
     if isinstance(x, AT) and x.axes and not isinstance(x.axes[0], int):
@@ -1450,7 +1503,7 @@ def make_world_externals(world_ref):
              absolute=symaware('abs', alg.jnp_abs), full=_full, full_like=lambda a, v, **k: alg.jnp_zeros_like(a) + v,
              eye=_eye, identity=_eye, outer=_outer, inner=symaware('dot', alg.jnp_dot), vdot=symaware('dot', alg.jnp_dot),
              ravel=lambda a: to_at(a).flatten() if not _is_opaque(a) else term('.flatten', a),
-             shape=lambda a: a.shape, ndim=lambda a: a.ndim, size=lambda a: a.size,
+             shape=lambda a: (a.shape if hasattr(a, 'shape') else ()), ndim=lambda a: a.ndim, size=lambda a: a.size,
              swapaxes=lambda a, i, j: alg.jnp_moveaxis(alg.jnp_moveaxis(a, i, j), (j - 1 if j > i else j + 1), i) if abs(_dim(i) - _dim(j)) > 1 else alg.jnp_moveaxis(a, i, j),
              float_=_float, asarray_chkfinite=_jnp_array,
              max=opaque_fn('max'), min=opaque_fn('min'), greater=lambda a, b: lift(a) > lift(b),
@@ -1458,9 +1511,11 @@ def make_world_externals(world_ref):
              less_equal=lambda a, b: lift(a) <= lift(b),
              )
     tree_util = NS("jax.tree_util", tree_map=_tree_map, tree_leaves=pytree.tree_leaves, tree_reduce=pytree.tree_reduce,
-                   tree_structure=pytree.tree_structure, tree_transpose=pytree.tree_transpose)
+                   tree_structure=pytree.tree_structure, tree_transpose=pytree.tree_transpose,
+                   tree_flatten=pytree.tree_flatten, tree_unflatten=pytree.tree_unflatten)
     tree = NS("jax.tree", map=_tree_map, leaves=pytree.tree_leaves, reduce=pytree.tree_reduce,
-              structure=pytree.tree_structure, transpose=pytree.tree_transpose)
+              structure=pytree.tree_structure, transpose=pytree.tree_transpose,
+              flatten=pytree.tree_flatten, unflatten=pytree.tree_unflatten)
     lax = NS("jax.lax", cond=lax_cond, scan=alg.lax_scan, fori_loop=lax_fori_loop, while_loop=lax_while_loop,
              dynamic_slice=_dynamic_slice, dynamic_update_slice=_dynamic_update_slice, select=_where,
              stop_gradient=stop_gradient_value, top_k=_top_k,
@@ -1502,11 +1557,13 @@ def make_world_externals(world_ref):
                        ge=lambda a, b: _op_cmp(a, b, '>='), le=lambda a, b: _op_cmp(a, b, '<='), gt=lambda a, b: _op_cmp(a, b, '>'),
                        lt=lambda a, b: _op_cmp(a, b, '<'), eq=lambda a, b: _op_cmp(a, b, '=='), ne=lambda a, b: _op_cmp(a, b, '!='),
                        is_=lambda a, b: a is b, is_not=lambda a, b: a is not b, contains=lambda a, b: b in a,
-                       truth=lambda a: bool(a), index=lambda a: _dim(a), and_=lambda a, b: as_pred(a) & as_pred(b),
-                       or_=lambda a, b: as_pred(a) | as_pred(b), not_=lambda a: as_pred(a).negate() if isinstance(a, Pred) else (not a),
+                       truth=lambda a: bool(a), index=lambda a: _dim(a), and_=lambda a, b: (as_pred(a) & as_pred(b)) if (isinstance(a, Pred) or isinstance(b, Pred)) else (a & b),
+                       or_=lambda a, b: (as_pred(a) | as_pred(b)) if (isinstance(a, Pred) or isinstance(b, Pred)) else (a | b),
+                       not_=lambda a: as_pred(a).negate() if isinstance(a, Pred) else (not a),
                        itemgetter=lambda *k: (lambda o: o[k[0]] if len(k) == 1 else tuple(o[x] for x in k)),
                        attrgetter=_attrgetter),
-        'numpy': NS("numpy", asarray=_np_asarray, cumsum=_np_cumsum, ndarray=ExternalClass('np.ndarray')),
+        'numpy': NS("numpy", asarray=_np_asarray, cumsum=_np_cumsum, ndarray=ExternalClass('np.ndarray'),
+                    sum=lambda a, *x, **k: _sum_builtin(list(a)), prod=lambda a, *x, **k: _math_prod(list(a)), array=_np_asarray),
         'math': NS("math", prod=_math_prod),
         'copy': NS("copy", deepcopy=lambda x: x, copy=lambda x: x),
         'itertools': NS("itertools", **{k: getattr(__import__('itertools'), k) for k in
